@@ -383,19 +383,22 @@ pub fn gen_rx(d: &mut Dec, p: &GenParams, depth: usize, budget: &mut usize) -> R
 /// signature that is a little too coarse (class ignored, multiplicity ignored, grouping ignored).
 pub fn gen_word_sets(d: &mut Dec) -> Rx {
     let lit = |c: char| Rx::Lit(c, LitForm::Verbatim);
-    let alphabets: [&[char]; 3] = [&['a', 'b'], &['c', 'd', 'e'], &['a', 'c', 'x']];
+    let alphabets: [&[char]; 5] = [&['a', 'b'], &['c', 'd', 'e'], &['a', 'c', 'x'], &['d', 'c'], &['b', 'c', 'x']];
     let heads = 1 + d.below(3);
-    let three = d.chance(64);
+    // 0: words of two letters; 1: two or three; 2: two to five (long shared prefixes, the
+    // difference between siblings lies several states deep)
+    let lengths = d.weighted(&[3, 2, 3]);
     let twins = d.bool();
     let gen_words = |d: &mut Dec| -> Vec<Vec<char>> {
         let n = 2 + d.below(3);
         (0..n)
             .map(|_| {
-                let mut w = vec![*d.pick(alphabets[0]), *d.pick(alphabets[1])];
-                if three && d.bool() {
-                    w.push(*d.pick(alphabets[2]));
-                }
-                w
+                let len = match lengths {
+                    0 => 2,
+                    1 => 2 + d.below(2),
+                    _ => 2 + d.below(4),
+                };
+                (0..len).map(|j| if lengths == 2 && j >= 1 && j + 1 < len && d.chance(160) { 'd' } else { *d.pick(alphabets[j]) }).collect()
             })
             .collect()
     };
@@ -410,7 +413,7 @@ pub fn gen_word_sets(d: &mut Dec) -> Rx {
                 0 => {
                     let i = d.below(w.len());
                     let j = d.below(w[i].len());
-                    w[i][j] = *d.pick(alphabets[j]);
+                    w[i][j] = *d.pick(alphabets[j.min(4)]);
                 }
                 1 if w.len() > 1 => {
                     let i = d.below(w.len());
